@@ -52,8 +52,13 @@ func (e *Engine) queryText(o *Obligation, cvc5 bool) string {
 	if fc := e.contracts[o.Fn]; fc != nil {
 		hide = fc.Hide
 	}
-	b.WriteString(d.axiomsForHide(strings.Join(o.Assumps, "\n")+"\n"+o.Goal, hide))
-	for _, a := range o.Assumps {
+	assumps := o.Assumps
+	if o.NoAxioms {
+		assumps = o.PathOnly
+	} else {
+		b.WriteString(d.axiomsForHide(strings.Join(o.Assumps, "\n")+"\n"+o.Goal, hide))
+	}
+	for _, a := range assumps {
 		b.WriteString("(assert ")
 		b.WriteString(a)
 		b.WriteString(")\n")
@@ -225,7 +230,22 @@ func (e *Engine) solveAll(obls []*Obligation, workDir string, stats *SolveStats,
 				st, out, secs := runSolver(ctx, backends[0], f, 2)
 				stats.add("z3-new", secs, st != "unsat")
 				o.Status, o.Backend, o.Raw, o.Seconds = st, "z3-new", out, secs
-				if st != "unsat" {
+				if st == "unsat" && o.PathOnly != nil {
+					// refuted: by the program and its contracts alone (dead code under the contracts: acceptable, reported as
+					// such), or only with the lemma library's axioms / instances (a contradiction there: not acceptable)?
+					o2 := *o
+					o2.NoAxioms = true
+					f2 := filepath.Join(workDir, fmt.Sprintf("q%05d.noax.smt2", i))
+					os.WriteFile(f2, []byte(e.queryText(&o2, false)), 0o644)
+					st2, _, secs2 := runSolver(ctx, backends[0], f2, 4)
+					stats.add("z3-new", secs2, true)
+					os.Remove(f2)
+					if st2 == "unsat" {
+						o.Status = "dead"
+						o.Raw = "unreachable under the contracts alone (no lemma-library axiom involved)"
+					}
+				}
+				if o.Status != "unsat" {
 					os.Remove(f)
 				}
 				return
